@@ -34,8 +34,10 @@ def run(tier, seed):
              ("muwait_mix", {"VRT_MODE": 0}, 800, 15000, "binary"), ("muwait_mix", {"VRT_MODE": 3}, 1500, 30000), ("muwait_mix", {"VRT_MODE": 0, "VRT_FINE": 600}, 1500, 30000),
              # observer thread: in a quiescent world no waiter may be asleep with its condition already made true (a lost wake-up that a timed
              # waiter's own timeout would mask); OBS=2: every waiter timed with a far deadline
-             ("muwait_mix", {"VRT_MODE": 0, "VRT_OBS": 1}, 1500, 30000), ("muwait_mix", {"VRT_MODE": 0, "VRT_OBS": 2}, 1500, 30000)]
-    cov = scen_common.run_scenarios(res, specs, tier, seed, {"C06", "C05"} | scen_common.LIVENESS | scen_common.CRASHES)
+             ("muwait_mix", {"VRT_MODE": 0, "VRT_OBS": 1}, 1500, 30000), ("muwait_mix", {"VRT_MODE": 0, "VRT_OBS": 2}, 1500, 30000),
+             # F13's shape (reader-mode nsync_mu_wait while a reader is the designated waker): scripted and random schedules
+             ("rdwait_stuck", {}, 3, 10), ("rdwait_stuck", {"VRT_SCRIPT": 0}, 2500, 50000)]
+    cov = scen_common.run_scenarios(res, specs, tier, seed, {"C06", "C05", "C02", "C06x"} | scen_common.LIVENESS | scen_common.CRASHES)
     cov["rule"] = ("muwait_mix: 2..4 waiters on {same f+arg, same f+different arg, eq-equivalent args, different f, no condition} in reader/"
                    "writer mode, setters that end with plain nsync_mu_unlock, a bystander using nsync_mu_unlock_without_wakeup after sections "
                    "that change nothing, plain lockers queued in front of conditional waiters (MODE 2), cv waiters, timeouts and "
